@@ -13,7 +13,7 @@ REQUIRED = ['getNBest_tie', 'getNBest_fits', 'getNBest_everyone', 'getNBest_leng
             'below_never_elected', 'getNBest_strictMono_map', 'plurality_eq', 'quotaSelector_ok',
             'sorted_votes_desc_spec', 'sorted_votes_asc_spec', 'sorted_votes_level_sets_agree', 'elected_stays_elected']
 NAME_MODES = ['str', 'int0', 'empty0', 'person']
-REQUIRED_COUNTERS = ['hash_alike_sequence', 'sorted_votes', 'boundary_tie', 'level_fits', 'negative_value', 'all_elected', 'fraction', 'decimal', 'quota_selector']
+REQUIRED_COUNTERS = ['hash_alike_sequence', 'falsy_first_below_cut', 'sorted_votes', 'boundary_tie', 'level_fits', 'negative_value', 'all_elected', 'fraction', 'decimal', 'quota_selector']
 RULE = ('1-8 candidates, values from tie-forcing small sets (incl. negatives/zero), Fractions, Decimals and integers up to '
         '10^30; n from 1 to len+2; ops get_n_best, plurality, quota_selector(select/error). Non-trivial = at least two '
         'candidates and a result that is not an error; distinct by canonical request.')
@@ -81,6 +81,22 @@ def generate(rng, tier):
         t = rng.randint(-1, 3)
         vals = [t + rng.choice([0, 0, 0, 1, 2, -1]) for _ in range(m)]
         yield _mk('get_n_best', vals, rng.randint(1, m), ['directed'])
+    # directed: the FIRST candidate below the cut is level with the n-th total and is a falsy object (int 0 / the empty string):
+    # candidate 0 is inserted last among the level candidates, so the stable order puts it exactly at index n
+    for k in range(24 if tier == 'quick' else 240):
+        above = rng.randint(0, 3)
+        level = rng.randint(2, 4)
+        t = rng.choice([-1, 0, 3, Fraction(7, 2)])
+        ids = list(range(1, above + level + 1))
+        rng.shuffle(ids)
+        pairs = [(ids[i], t + rng.randint(1, 3)) for i in range(above)] + [(ids[above + j], t) for j in range(level - 1)] + [(0, t)]
+        for j in range(rng.randint(0, 2)):
+            pairs.append((above + level + 1 + j, t - rng.randint(1, 2)))
+        c = _mk(rng.choice(['get_n_best', 'plurality']), [v for _, v in pairs], above + level - 1, ['directed', 'falsy_first_below_cut'])
+        c['votes'] = [[i, num_str(v)] for i, v in pairs]
+        c['_names'] = ['int0', 'empty0', 'str', 'person'][k % 4]
+        c['_tags'].append('names:' + c['_names'])
+        yield c
     # directed: consecutive calls whose value tuples HASH alike but differ (hash(-1) == hash(-2); hash(x) == hash(x + 2**61 - 1)
     # for int / Fraction / Decimal): a result remembered under a hashed key would be handed back for the wrong election
     P = 2 ** 61 - 1
